@@ -578,6 +578,8 @@ pub fn run_plan_here(plan: &Plan) -> Outcome {
     if plan.heap_perturb > 0 {
         state().ev(&format!("fault heap_layout blocks={}", plan.heap_perturb));
     }
+    // the reference's working directory; SetCwd calls change it
+    let _ = std::env::set_current_dir("/");
     seams::set_hash_base(plan.hash_base);
     match &plan.env_before {
         Some(v) => std::env::set_var("PRQL_VERSION_OVERRIDE", v),
